@@ -136,6 +136,29 @@ fn main() {
         let src = format!("min {sn}\ns.t.\n    c_1: {sn} >= 1\n    x + y + z + x_0 + x_1 + x_2 + x_3 >= 0\nwhere\n    let A = [1, 2, 3]\n    let n = 4\ndefine\n    x, y, z as Real\n    x_i as Real for i in 0..4");
         check_program(&src, &mut rep, "snippet");
     }
+    // (a'') names of every shape as variables, in declarations and as constraint names; constants of every kind
+    let shapes = ["x", "_t", "__h", "x_1", "\\x_1", "\\_t_1", "\\__u_v", "$aux", "\\$a_b", "x_A", "y_1_2", "\\y_1_2", "set_A__2", "k10", "not_x", "min_cost", "Infinity2"];
+    for a in shapes.iter() { for c in shapes.iter() {
+        let decl_a = a; let decl_c = c;
+        if a == c { continue; }
+        let src = format!("min {a} + 2 * {c}\ns.t.\n    {a}: {a} - {c} >= 1\n    {c}: {c} <= 4\ndefine\n    {decl_a}, {decl_c} as Real");
+        check_program(&src, &mut rep, "names");
+    } }
+    let consts = ["1", "0.5", "-3", "true", "false", "\"s\"", "\"a\\\"b\"", "\"tab\\tq\"", "[1, 2, 3]", "[]", "[[1, 2], [3]]", "[true, false]", "[\"a\", \"b\"]", "[\"q\\\"r\"]", "Graph { A -> [B, C: 10], B -> [], C }", "Graph { A -> [B: -2], B }", "1..3", "len([1, 2])", "[1, 2][0]", "-(2)", "2 * 3 + 1"];
+    for c in consts.iter() {
+        let src = format!("min x\ns.t.\n    x >= 1\nwhere\n    let k = {c}\n    let z = 2\ndefine\n    x as Real");
+        check_program(&src, &mut rep, "consts");
+    }
+    let decls = ["x as Real", "x as Real(0, 3)", "x as Real(-1.5, Infinity)", "x as Real(MinusInfinity, 2)", "x as NonNegativeReal", "x as NonNegativeReal(1, 2)", "x as Boolean", "x as IntegerRange(-2, 5)", "x as IntegerRange(n, n + 3)", "x as Real(A[0], A[1] * 2)", "x_i as Real for i in 0..3", "x_i as Boolean for i in A", "x_i_j as Real for i in 0..2, j in 1..=2", "x_u as Real for (u, v) in edges(G)", "x_i as IntegerRange(0, i + 1) for (e, i) in enumerate(A)", "x, y as Real\n    z as Boolean"];
+    for d in decls.iter() {
+        let src = format!("min 1\ns.t.\n    1 >= 0\nwhere\n    let n = 2\n    let A = [1, 2, 3]\n    let G = Graph {{ A -> [B: 2], B -> [A] }}\ndefine\n    {d}");
+        check_program(&src, &mut rep, "decls");
+    }
+    let iters = ["x_i >= i for i in 0..3", "x_i >= i for i in 0..=2", "c_i: x_i + x_j >= 1 for i in 0..2, j in 1..3", "x_i or x_j for i in 0..2, j in 2..3", "sum(i in 0..3) { x_i } <= 2", "sum(i in 0..3, j in 0..2) { x_i * j } <= 2", "sum((v, i) in enumerate(A)) { v * x_i } <= 9", "max(i in 0..3) { x_i } <= 2", "min { x_0, x_1 } >= 0", "avg(i in 0..3) { x_i } <= 1", "prod(i in 1..3) { i } * x_0 <= 9", "x_{i + 1} >= x_i for i in 0..2", "x_{A[0] - 1} >= 0", "any(i in 0..3) { x_i }", "all { x_0, x_1 }", "xor(i in 0..2) { x_i }", "abs { x_0 - x_1 } <= 1 for k in 0..2", "x_i >= len(A) for i in range(0, 3)"];
+    for it in iters.iter() {
+        let src = format!("max sum(i in 0..3) {{ x_i }}\ns.t.\n    {it}\nwhere\n    let A = [1, 2, 3]\ndefine\n    x_i as Boolean for i in 0..3");
+        check_program(&src, &mut rep, "iters");
+    }
     // (b) whole programs from the repository
     if let Ok(f) = std::fs::File::open(corpus_path) {
         for line in std::io::BufReader::new(f).lines() {
